@@ -531,7 +531,7 @@ def main(argv):
         broken = []
         # safety net: a harness that cannot evaluate the tree (an exception it does not expect, a command that never returns)
         # must still end in a well-formed report: the failure is a broken correspondence, named in the replay file
-        budget = int(os.environ.get('VERIF_BUDGET_S', '1300' if tier == 'quick' else '20000'))
+        budget = int(os.environ.get('VERIF_BUDGET_S', '1000' if tier == 'quick' else '20000'))
         rep = _guarded(lambda: mod.run(ctx), budget, getattr(mod, 'RULE', ''), 'run')
         if not ok_native:
             broken.append({'what': 'native shim does not build from src/adapters.cpp', 'detail': native_log[-1500:]})
@@ -543,7 +543,8 @@ def main(argv):
             broken.append({'what': 'model/implementation correspondence differs: ' + d.get('what', ''), 'case': d.get('replay')})
         for d in rep.disagreements[:3]:
             log(f'{pid}: disagreement: ' + ' '.join(str(d.get('what', '')).split())[:400])
-        if broken and not rep.violations and hasattr(mod, 'search'):
+        timed_out = any((d.get('replay') or {}).get('problem') == 'timeout' for d in rep.disagreements if isinstance(d.get('replay'), dict))
+        if broken and not rep.violations and hasattr(mod, 'search') and not timed_out:
             log(f'{pid}: {len(broken)} broken obligation(s)/correspondence(s); running the large search')
             ctx2 = Ctx(pid, tier, seed, sc, random.Random(seed + 1), deep=True)
             rep2 = _guarded(lambda: mod.search(ctx2, broken), budget, getattr(mod, 'RULE', ''), 'search')
